@@ -239,7 +239,8 @@ def _load(name, path, source, res, report=None):
             res.violate({'property': PROP, 'literal': text, 'exact': str(val), 'problem': f'@fp.fpy rejected the literal: {type(e).__name__}: {str(e)[:200]}',
                          'mechanism': {'kind': kind, 'problem': 'rejected', 'beyond_double': _beyond_double(val),
                                        'source': 'python_float_literal' if kind in FLOAT_KINDS and not _is_int_literal(text) else kind,
-                                       'python_float_differs': _py_float_differs(text, val, kind) and kind in FLOAT_KINDS}})
+                                       'python_float_differs': _py_float_differs(text, val, kind) and kind in FLOAT_KINDS,
+                                       'got_is_python_float_value': _beyond_double(val)}})
         return None
     return mod
 
@@ -290,6 +291,30 @@ def _judge(res, mod, k, text, val, nz, kind, narrow, fds, rng):
     mech = {'kind': kind, 'python_float_differs': differs and kind in FLOAT_KINDS, 'beyond_double': _beyond_double(val),
             'source': 'python_float_literal' if kind in FLOAT_KINDS and not _is_int_literal(text) else kind}
     want = ('fin', bool(nz) if val == 0 else val < 0, abs(val))
+    # F4 is "the literal arrives as the value Python's float() gives the spelling": a wrong value is only that finding when it IS that value
+    # (or that value rounded by the context in use); any other wrong value is a different defect
+    try:
+        pf = float(text.replace('_', '')) if kind in FLOAT_KINDS else None
+        # the front end re-reads the float through its shortest repr (Decnum(str(value))): that decimal is "the value Python's float gives"
+        pyv = None if pf is None or pf != pf or pf in (float('inf'), float('-inf')) else ('fin', (pf < 0) or (pf == 0 and (bool(nz) or str(pf).startswith('-'))), abs(Fraction(repr(pf))))
+    except Exception:
+        pyv = None
+    mech['got_is_python_float_value'] = _beyond_double(val)
+
+    def py_consistent(gv, fd=None):
+        if gv is None or pyv is None:
+            return _beyond_double(val)
+        # ... or the float's exact binary value (integral floats are converted with int())
+        for cand in (pyv, ('fin', pyv[1], abs(Fraction(pf)))):
+            if same_val(gv, cand):
+                return True
+            if fd is not None:
+                try:
+                    if any(same_val(gv, v) for v in rnd.expected_round(fd, cand).values):
+                        return True
+                except Exception:
+                    pass
+        return False
 
     def got_val(r):
         if isinstance(r, Fraction):
@@ -310,7 +335,8 @@ def _judge(res, mod, k, text, val, nz, kind, narrow, fds, rng):
                 pass
             else:
                 res.violate({'property': PROP, 'literal': text, 'exact': val_str(want), 'got': val_str(gv) if gv else repr(r),
-                             'problem': 'value under REAL differs from the spelling', 'mechanism': dict(mech, problem='value_real')})
+                             'problem': 'value under REAL differs from the spelling',
+                             'mechanism': dict(mech, problem='value_real', got_is_python_float_value=py_consistent(gv))})
                 return
     except Exception as e:
         res.violate({'property': PROP, 'literal': text, 'exact': val_str(want), 'problem': f'evaluation under REAL raised {type(e).__name__}: {str(e)[:200]}',
@@ -334,7 +360,7 @@ def _judge(res, mod, k, text, val, nz, kind, narrow, fds, rng):
         if gv is None or not any(same_val(gv, v) for v in exp.values):
             res.violate({'property': PROP, 'literal': text, 'context': ctext, 'exact': val_str(want), 'got': val_str(gv) if gv else repr(r),
                          'expected': [val_str(v) for v in exp.values], 'problem': 'round(literal) is not the exact value rounded once',
-                         'mechanism': dict(mech, problem='value_round')})
+                         'mechanism': dict(mech, problem='value_round', got_is_python_float_value=py_consistent(gv, fds[j]))})
             return
         # 3. the bare literal under a narrow context: the exact value, or it rounded once (documented: literals are as-is)
         try:
@@ -343,7 +369,7 @@ def _judge(res, mod, k, text, val, nz, kind, narrow, fds, rng):
             if g2 is None or not (same_val(g2, want) or any(same_val(g2, v) for v in exp.values)):
                 res.violate({'property': PROP, 'literal': text, 'context': ctext, 'exact': val_str(want), 'got': val_str(g2) if g2 else repr(r2),
                              'problem': 'bare literal under a context is neither the exact value nor it rounded once',
-                             'mechanism': dict(mech, problem='value_ctx')})
+                             'mechanism': dict(mech, problem='value_ctx', got_is_python_float_value=py_consistent(g2, fds[j]))})
                 return
         except Exception as e:
             res.violate({'property': PROP, 'literal': text, 'context': ctext, 'problem': f'literal under context raised {type(e).__name__}: {str(e)[:200]}',
